@@ -754,6 +754,13 @@ class VHDXInspector(FileInspector):
                     '<QII', entry[16:])
                 self._trace('Meta entry %i specifies offset: %x',
                             i, meta_offset)
+                header = self.region('header')
+                if meta_offset < header.offset + header.length:
+                    # We stream, so a region located before the end of the
+                    # table that points to it has already gone by
+                    raise ImageFormatError(
+                        'Metadata region offset %x is inside the header' % (
+                            meta_offset))
                 # NOTE(danms): The meta_len in the region descriptor is the
                 # entire size of the metadata table and data. This can be
                 # very large, so we should only capture the size required
